@@ -213,6 +213,32 @@ pub fn eval_whitelist(order: &[usize], with_encoding: bool, st: &mut Stats) -> R
     if it2 != it {
         return Err("into_iter order differs from iter order".into());
     }
+    // the same list through FromIterator, Extend (in two halves, reversed) and From<[_; N]>
+    let via_collect: SymbolList = order.iter().rev().map(|i| SIZES[*i]).collect();
+    let mut via_extend = SymbolList::with_whitelist(order[..order.len() / 2].iter().map(|i| SIZES[*i]));
+    via_extend.extend(order[order.len() / 2..].iter().rev().map(|i| SIZES[*i]));
+    if via_collect != l || via_extend != l {
+        return Err("the list depends on how it was built (FromIterator / Extend)".into());
+    }
+    if via_extend.iter().map(bridge::ref_index).collect::<Vec<_>>() != it {
+        return Err("iteration order depends on how the list was built".into());
+    }
+    // filters on a white-list behave like on the standard lists
+    for (lo, hi) in [(10usize, 32usize), (0, 20), (18, 150)] {
+        let wl = l.clone().enforce_width_in(lo..=hi);
+        let want_w = mask_where(want, |i| SYMBOLS[i].cols >= lo && SYMBOLS[i].cols <= hi);
+        if mask_of(&wl) != want_w {
+            return Err(format!("enforce_width_in({}..={}) on the white-list keeps {:?}", lo, hi, names(mask_of(&wl))));
+        }
+        let hl = l.clone().enforce_height_in(lo..hi);
+        let want_h = mask_where(want, |i| SYMBOLS[i].rows >= lo && SYMBOLS[i].rows < hi);
+        if mask_of(&hl) != want_h {
+            return Err(format!("enforce_height_in({}..{}) on the white-list keeps {:?}", lo, hi, names(mask_of(&hl))));
+        }
+    }
+    if mask_of(&l.clone().enforce_square()) != mask_where(want, |i| SYMBOLS[i].is_square()) || mask_of(&l.clone().enforce_rectangular()) != mask_where(want, |i| !SYMBOLS[i].is_square()) {
+        return Err("enforce_square / enforce_rectangular on the white-list".into());
+    }
     if with_encoding {
         let maxcap = it.iter().map(|i| SYMBOLS[*i].data).max().unwrap_or(0);
         for k in 0..=maxcap + 1 {
